@@ -5,11 +5,14 @@
    L2: the reverse-purge hash map as coded: linear probing with drift states, hash_delete back-shift,
        resize, purge = median of the first min(1024, active) active values in slot order,
        subtract_and_keep_positive_only in the code's two-pass order, golden-ratio stride iterator.
-   Quirks mirrored on purpose (see Properties_C12.v for the refutation witnesses):
-     - merge() returns at once when other.is_empty(), i.e. when the operand has NO ACTIVE COUNTER, even if
-       its total weight and offset are non-zero (all counters purged);
-     - serialize() writes the 8-byte empty form for such a sketch, so a round trip resets total and offset;
-     - get_frequent_items(type, threshold) uses the caller's threshold as is (no clamp to the maximum error).
+   merge() is that of the REPAIRED code (fixes/12_1_fi_merge_purged_empty.patch): it returns at once only when the operand
+   has no active counter AND zero total weight (the unrepaired code tested "no active counter" only and so dropped the
+   total weight and offset of a sketch whose counters were all purged; old behaviour + refutation: Regression_fi.v).
+   Quirks mirrored on purpose (known findings, see Properties_C12.v for the refutation witnesses):
+     - serialize() writes the 8-byte empty form whenever there is NO ACTIVE COUNTER, even if total weight and offset are
+       non-zero (all counters purged), so a round trip of such a sketch resets total and offset;
+     - get_frequent_items(type, threshold) uses the caller's threshold as is (no clamp to the maximum error; for
+       NO_FALSE_NEGATIVES the clamp would not change the rows, see FiProofs.nfn_clamp_noop).
    Not modelled: the DRIFT_LIMIT (1024) exception and the "num_active > capacity" exception (unreachable for
    tables of at most 1024 slots / by the load factor), wrap-around of the weight type. *)
 From Coq Require Import ZArith NArith List Bool.
@@ -86,15 +89,12 @@ Section L1.
   Definition h_nopurge (h : list aop) : Prop :=
     Forall (fun o => match o with AUpd _ _ => True | APurge _ => False end) h.
 
-  (* merge as coded: nothing happens when the operand has no active counter; otherwise the operand's
-     counters are replayed as updates (history h: in any order, purges wherever the map decides),
-     then the operand's offset is added and the total is fixed up *)
+  (* merge: the operand's counters are replayed as updates (history h: in any order, purges wherever the
+     map decides), then the operand's offset is added and the total is fixed up.  (The code's early return for
+     an operand with no counter and zero total weight is the identity; proved at L2.) *)
   Definition a_merge (a b : ask) (h : list aop) : ask :=
-    match a_ents b with
-    | [] => a
-    | _ => let a' := a_run a h in
-           {| a_ents := a_ents a'; a_off := a_off a' + a_off b; a_tot := a_tot a + a_tot b |}
-    end.
+    let a' := a_run a h in
+    {| a_ents := a_ents a'; a_off := a_off a' + a_off b; a_tot := a_tot a + a_tot b |}.
 
   (* serialize + deserialize as coded: the empty form when there is no active counter; otherwise the
      counters are re-inserted into a fresh sketch (history h) and offset/total are restored *)
@@ -123,11 +123,8 @@ Section L1.
     fold_left (fun s xw => a_update_det cap s (fst xw) (snd xw)) l s.
 
   Definition a_merge_det (cap : Z) (a b : ask) (order : amap) : ask :=
-    match a_ents b with
-    | [] => a
-    | _ => let a' := a_run_det cap a order in
-           {| a_ents := a_ents a'; a_off := a_off a' + a_off b; a_tot := a_tot a + a_tot b |}
-    end.
+    let a' := a_run_det cap a order in
+    {| a_ents := a_ents a'; a_off := a_off a' + a_off b; a_tot := a_tot a + a_tot b |}.
 
   Definition a_sum (m : amap) : Z := fold_right (fun kv acc => snd kv + acc) 0 m.
 End L1.
@@ -286,7 +283,7 @@ Section L2.
     fold_left (fun s c => sk_update s (ck c) (cv c)) l s.
 
   Definition sk_merge (a b : sketch) : sketch :=
-    if nact (sk_map b) =? 0 then a else
+    if (nact (sk_map b) =? 0) && (sk_tot b =? 0) then a else
     let a' := sk_replay a (entries (sk_map b)) in
     {| sk_tot := sk_tot a + sk_tot b; sk_off := sk_off a' + sk_off b; sk_map := sk_map a' |}.
 
